@@ -114,6 +114,44 @@ DERIVED_FUNCS = {"numpy.cos", "numpy.sin", "numpy.sqrt", "numpy.log", "numpy.hyp
                  "numpy.power", "builtins.abs"}
 
 
+_DOC_DS = {}
+
+
+def _documented_dataset(pkg, qual, param, depth=0):
+    """the numpydoc entry of `param` (in the function, or - for an undocumented private helper - in the package functions that hand their own
+    parameter on to it) says xarray.Dataset and not DataArray"""
+    key = (id(pkg), qual, param)
+    if key in _DOC_DS:
+        return _DOC_DS[key]
+    _DOC_DS[key] = False
+    from . import contracts
+    f = pkg.functions.get(qual)
+    res = False
+    if f is not None:
+        entry = contracts.numpydoc_params(f.docstring()).get(param)
+        if entry:
+            res = "Dataset" in entry and "DataArray" not in entry
+        elif depth < 2:
+            import ast
+            short = qual.rsplit(".", 1)[1]
+            votes = []
+            for g in pkg.functions.values():
+                if g.qual == qual:
+                    continue
+                for n in ast.walk(g.node):
+                    if isinstance(n, ast.Call) and ((isinstance(n.func, ast.Name) and n.func.id == short) or (isinstance(n.func, ast.Attribute) and n.func.attr == short)):
+                        names = f.call_params if f.is_method else f.posparams
+                        for i, a in enumerate(n.args):
+                            if i < len(names) and names[i] == param and isinstance(a, ast.Name) and a.id in g.params:
+                                votes.append(_documented_dataset(pkg, g.qual, a.id, depth + 1))
+                        for k in n.keywords:
+                            if k.arg == param and isinstance(k.value, ast.Name) and k.value.id in g.params:
+                                votes.append(_documented_dataset(pkg, g.qual, k.value.id, depth + 1))
+            res = bool(votes) and all(votes)
+    _DOC_DS[key] = res
+    return res
+
+
 class Checker:
     def __init__(self, pkg, path, fnqual):
         self.pkg, self.path, self.q = pkg, path, fnqual
@@ -129,6 +167,19 @@ class Checker:
         axes = {r.axis for r in roles if isinstance(r, A) and r.axis in ("E", "N")}
         self.note(len(axes) <= 1, kind, desc, " ".join(map(repr, roles)))
         return next(iter(axes)) if len(axes) == 1 else "-"
+
+    def is_dataset(self, base):
+        """the function treats `base` as an xarray.Dataset on this path: it reads base.data_vars, or hasattr(base, "data_vars") was decided true"""
+        for c, v in self.decided.items():
+            if c[0] == "call" and callee(c) == "builtins.hasattr" and c[2] == (base, const("data_vars")):
+                return bool(v)
+        for e in self.path.events:
+            for d in e.data:
+                if isinstance(d, tuple) and any(x == ("attr", base, "data_vars") for x in walk(d) if isinstance(x, tuple)):
+                    return True
+        if base[0] == "param":
+            return _documented_dataset(self.pkg, self.q, base[1])
+        return False
 
     def scalar_path(self, name):
         """the path decided that the scalar-or-pair parameter `name` is a scalar"""
@@ -214,7 +265,11 @@ class Checker:
         if k == "attr":
             if t[2] in SAME_ATTR:
                 return self.role(t[1], env)
-            if t[2] == "dims":
+            if t[2] in ("dims", "sizes"):
+                # the dims of a DataArray (or of one variable of a Dataset) are that variable's axes, in order.  Dataset.dims / Dataset.sizes
+                # list the dimensions of ALL variables in order of first appearance (coordinates included): not an axis order of the data
+                if t[2] == "sizes" or self.is_dataset(t[1]):
+                    return None
                 return DIMS()
             if t[2] == "coords":
                 return A("coordmap")
